@@ -348,4 +348,33 @@ theorem collect_twice (a : Agent) (t1 t2 : Nat) (h : t1 ≤ t2) :
       rw [e1, e2] at hsplit
       exact hsplit
 
+/-- the same accounting for the histories a user sees — those of a freshly created agent: at every point no
+    transaction id has received more terminal events than it had successful Starts, the difference is 1 exactly
+    while it is registered, and once the agent is closed every successful Start has had exactly one terminal event -/
+theorem fresh_history (ops : List AOp) (id : TID) :
+    totalTerms id (Agent.run {} ops).2 ≤ totalStarts id (Agent.run {} ops).2 ∧
+    totalStarts id (Agent.run {} ops).2 = totalTerms id (Agent.run {} ops).2 + cnt id (Agent.run {} ops).1.table ∧
+    ((Agent.run {} ops).1.closed = true → totalStarts id (Agent.run {} ops).2 = totalTerms id (Agent.run {} ops).2) := by
+  obtain ⟨hi, he⟩ := exactly_one_terminal ops {} inv_init id
+  have h0 : cnt id ({} : Agent).table = 0 := by simp [cnt]
+  rw [h0, Nat.add_zero] at he
+  refine ⟨by omega, he, fun hc => ?_⟩
+  have : cnt id (Agent.run {} ops).1.table = 0 := by rw [hi.closedEmpty hc]; simp [cnt]
+  omega
+
+/-- Close is final for whole histories: from a closed agent every call of every continuation returns ErrAgentClosed,
+    emits no event and leaves the state as it is -/
+theorem closed_forever (ops : List AOp) (a : Agent) (hc : a.closed = true) :
+    (a.run ops).1 = a ∧ ∀ x ∈ (a.run ops).2, x.2 = (some AErr.closed, []) := by
+  induction ops with
+  | nil => exact ⟨rfl, by simp [Agent.run]⟩
+  | cons op r ih =>
+    have e := after_close a hc op
+    simp only [Agent.run, e]
+    refine ⟨ih.1, ?_⟩
+    intro x hx
+    rcases List.mem_cons.1 hx with rfl | hx
+    · rfl
+    · exact ih.2 x hx
+
 end Stun.C13
